@@ -29,7 +29,11 @@ const (
 	NFSERR_NOT_SYNC    = 10002 // Update synchronization mismatch (sattrguard3)
 	NFSERR_NOTSUPP     = 10004 // Operation not supported
 	NFSERR_JUKEBOX     = 10008 // Server busy, try again later (used during policy drain)
-	NFSERR_DELAY       = 10013 // Server is temporarily busy (rate limit exceeded)
+	// NFSERR_DELAY is sent when the server is temporarily busy (rate limit
+	// exceeded, operation timed out). NFSv3 has no status of its own for this;
+	// the RFC 1813 code that tells the client to retry later is NFS3ERR_JUKEBOX.
+	// (10013 is not a member of nfsstat3.)
+	NFSERR_DELAY = NFSERR_JUKEBOX
 
 	// Alias for backward compatibility - use NFSERR_ACCES for NFS3 access denied errors
 	ACCESS_DENIED = NFSERR_ACCES
